@@ -2,13 +2,16 @@
 
 package main
 
-// Part 3 of the C18 harness: the resource service's Write and Delete endpoints
+// Part 3 of the C18 harness: the resource service's Read, Write and Delete endpoints
 // (agent/grpc-external/services/resource/write.go, delete.go) on top of the real in-memory backend, under
 // real concurrency. These endpoints are where "a resource's UID never changes between versions while a
-// re-created resource is a distinct lifetime" is implemented (the service carries the stored Uid over on
-// updates, mints a ULID on creation, resolves name-only deletes to the current lifetime) on top of the
-// backend's CAS. There is no Lean model of this layer: the monitors below restate the property on the
-// commit order seen by a storage-level observer watch.
+// re-created resource is a distinct lifetime that stale writers and deleters cannot touch" is implemented
+// (the service carries the stored Uid over on updates, mints a ULID on creation, resolves name-only
+// deletes to the current lifetime) on top of the backend's CAS and of Backend.Read's uid / GroupVersion
+// rules. The type under test is demo Artist, registered in two GroupVersions (v1, v2) that share one
+// storage key; clients keep the ids (with uid) of every lifetime they have seen and come back with them
+// later — with either GroupVersion, with and without a version. There is no Lean model of this layer: the
+// monitors restate the property on the commit order seen by a storage-level observer watch.
 
 import (
 	"context"
@@ -21,6 +24,7 @@ import (
 	"github.com/hashicorp/go-hclog"
 	"google.golang.org/grpc/codes"
 	"google.golang.org/grpc/status"
+	"google.golang.org/protobuf/types/known/anypb"
 
 	"github.com/hashicorp/consul/acl"
 	"github.com/hashicorp/consul/acl/resolver"
@@ -31,6 +35,8 @@ import (
 	"github.com/hashicorp/consul/internal/storage/inmem"
 	"github.com/hashicorp/consul/internal/verifharness/hx"
 	"github.com/hashicorp/consul/proto-public/pbresource"
+	pbdemov1 "github.com/hashicorp/consul/proto/private/pbdemo/v1"
+	pbdemov2 "github.com/hashicorp/consul/proto/private/pbdemo/v2"
 )
 
 type aclAll struct{}
@@ -41,61 +47,79 @@ func (aclAll) ResolveTokenAndDefaultMeta(string, *acl.EnterpriseMeta, *acl.Autho
 
 type tenancyOK struct{}
 
-func (tenancyOK) PartitionExists(string) (bool, error)                    { return true, nil }
-func (tenancyOK) IsPartitionMarkedForDeletion(string) (bool, error)       { return false, nil }
-func (tenancyOK) NamespaceExists(string, string) (bool, error)            { return true, nil }
+func (tenancyOK) PartitionExists(string) (bool, error)                      { return true, nil }
+func (tenancyOK) IsPartitionMarkedForDeletion(string) (bool, error)         { return false, nil }
+func (tenancyOK) NamespaceExists(string, string) (bool, error)              { return true, nil }
 func (tenancyOK) IsNamespaceMarkedForDeletion(string, string) (bool, error) { return false, nil }
 
+// sop is one service call and what came back.
 type sop struct {
 	tid       int
-	kind      string // uw (user write), cw (cas write), ud (user delete), cd (cas delete), r
+	kind      string // w (write), d (delete), r (read)
 	name      string
-	presented string // explicit version (cw, cd)
-	uid       string // explicit uid (cw, cd)
+	gv        string // GroupVersion the caller used
+	uid       string // uid the caller put into the id ("" = by name)
+	presented string // version the caller presented ("" = non-CAS)
 	code      codes.Code
-	res       *pbresource.Resource // write result / read result
-	// read–delete–read pattern (ud only)
+	res       *pbresource.Resource // write / read result
+	// for name-only deletes: what the caller read right before and after
 	before, after *pbresource.Resource
 }
 
 func (o sop) line() string {
 	r := "-"
 	if o.res != nil {
-		r = fmt.Sprintf("%s/%s", o.res.Id.Uid, o.res.Version)
+		r = fmt.Sprintf("%s/%s/%s", o.res.Id.Type.GroupVersion, o.res.Id.Uid, o.res.Version)
 	}
-	return fmt.Sprintf("svc t%d %s %s uid=%q vsn=%q -> %s %s", o.tid, o.kind, o.name, o.uid, o.presented, o.code, r)
+	return fmt.Sprintf("svc t%d %s %s gv=%s uid=%q vsn=%q -> %s %s", o.tid, o.kind, o.name, o.gv, o.uid, o.presented, o.code, r)
 }
 
-func serviceHistory(run *hx.Run, r *hx.RNG) {
+type svcEnv struct {
+	run    *hx.Run
+	srv    *svc.Server
+	store  *inmem.Store
+	cancel context.CancelFunc
+	uniq   atomic.Int64
+	mu     sync.Mutex
+	ops    []sop
+	obsMu  sync.Mutex
+	obs    []sev
+	stop   atomic.Bool
+	owg    sync.WaitGroup
+}
+
+func artistType(gv string) *pbresource.Type {
+	if gv == "v1" {
+		return demo.TypeV1Artist
+	}
+	return demo.TypeV2Artist
+}
+
+func svcTenancy() *pbresource.Tenancy {
+	return &pbresource.Tenancy{Partition: "default", Namespace: "default"}
+}
+
+func newSvcEnv(run *hx.Run) *svcEnv {
 	be, err := inmem.NewBackend()
 	if err != nil {
 		panic(err)
 	}
 	ctx, cancel := context.WithCancel(bg)
-	defer cancel()
 	go be.Run(ctx)
 	reg := resource.NewRegistry()
-	demo.RegisterTypes(reg)
-	srv := svc.NewServer(svc.Config{Logger: hclog.NewNullLogger(), Registry: reg, Backend: be, ACLResolver: aclAll{}, TenancyBridge: tenancyOK{}})
-	store := be.VerifC18Store()
-	typ := demo.TypeV1Concept
-	ten := func() *pbresource.Tenancy { return &pbresource.Tenancy{Partition: "default", Namespace: "default"} }
-
-	// observer: commit order of the type under test
-	var obsMu sync.Mutex
-	var obs []sev
-	var stop atomic.Bool
-	ow, err := store.WatchList(storage.UnversionedTypeFrom(typ), &pbresource.Tenancy{Partition: "*", Namespace: "*"}, "")
+	demo.RegisterTypes(reg) // registers demo Artist as v1 and as v2 (one storage key), and more
+	e := &svcEnv{run: run, cancel: cancel, store: be.VerifC18Store(),
+		srv: svc.NewServer(svc.Config{Logger: hclog.NewNullLogger(), Registry: reg, Backend: be, ACLResolver: aclAll{}, TenancyBridge: tenancyOK{}})}
+	ow, err := e.store.WatchList(storage.UnversionedTypeFrom(demo.TypeV2Artist), &pbresource.Tenancy{Partition: "*", Namespace: "*"}, "")
 	if err != nil {
 		panic(err)
 	}
-	var owg sync.WaitGroup
-	owg.Add(1)
+	e.owg.Add(1)
 	go func() {
-		defer owg.Done()
+		defer e.owg.Done()
 		defer ow.Close()
 		for {
-			if stop.Load() && ow.VerifC18WouldBlock() {
+			if e.stop.Load() && ow.VerifC18WouldBlock() {
 				return
 			}
 			c, cancel := context.WithTimeout(bg, 20*time.Millisecond)
@@ -104,141 +128,130 @@ func serviceHistory(run *hx.Run, r *hx.RNG) {
 			if err != nil {
 				continue
 			}
-			obsMu.Lock()
+			e.obsMu.Lock()
 			switch {
 			case ev.GetUpsert() != nil:
-				obs = append(obs, sev{kind: 'u', res: ev.GetUpsert().Resource})
+				e.obs = append(e.obs, sev{kind: 'u', res: ev.GetUpsert().Resource})
 			case ev.GetDelete() != nil:
-				obs = append(obs, sev{kind: 'x', res: ev.GetDelete().Resource})
+				e.obs = append(e.obs, sev{kind: 'x', res: ev.GetDelete().Resource})
 			}
-			obsMu.Unlock()
+			e.obsMu.Unlock()
 		}
 	}()
+	return e
+}
 
-	var mu sync.Mutex
-	var ops []sop
-	var uniq atomic.Int64
-	names := []string{"a", "b"}[:1+r.Intn(2)]
-	nThreads := 2 + r.Intn(3)
-	perThread := 4 + r.Intn(5)
-	run.Tag(fmt.Sprintf("svc:threads=%d", nThreads))
+func (e *svcEnv) record(o sop) {
+	e.mu.Lock()
+	e.ops = append(e.ops, o)
+	e.mu.Unlock()
+}
 
-	mkRes := func(name string) *pbresource.Resource {
-		return &pbresource.Resource{
-			Id:       &pbresource.ID{Type: typ, Tenancy: ten(), Name: name},
-			Metadata: map[string]string{"p": fmt.Sprint(uniq.Add(1))},
+func (e *svcEnv) mkRes(name, gv, uid, vsn string) *pbresource.Resource {
+	p := fmt.Sprint(e.uniq.Add(1))
+	var data *anypb.Any
+	var err error
+	if gv == "v1" {
+		data, err = anypb.New(&pbdemov1.Artist{Name: "artist " + p, Genre: pbdemov1.Genre_GENRE_JAZZ})
+	} else {
+		data, err = anypb.New(&pbdemov2.Artist{Name: "artist " + p, Genre: pbdemov2.Genre_GENRE_JAZZ})
+	}
+	if err != nil {
+		panic(err)
+	}
+	return &pbresource.Resource{
+		Id:       &pbresource.ID{Type: artistType(gv), Tenancy: svcTenancy(), Name: name, Uid: uid},
+		Version:  vsn,
+		Data:     data,
+		Metadata: map[string]string{"p": p},
+	}
+}
+
+func (e *svcEnv) write(tid int, name, gv, uid, vsn string) *pbresource.Resource {
+	o := sop{tid: tid, kind: "w", name: name, gv: gv, uid: uid, presented: vsn}
+	rsp, err := e.srv.Write(bg, &pbresource.WriteRequest{Resource: e.mkRes(name, gv, uid, vsn)})
+	o.code = status.Code(err)
+	if err == nil {
+		o.res = rsp.Resource
+	}
+	e.record(o)
+	return o.res
+}
+
+// rawRead does not record anything (used for the before/after of name-only deletes).
+func (e *svcEnv) rawRead(name, gv, uid string) (*pbresource.Resource, codes.Code) {
+	rsp, err := e.srv.Read(bg, &pbresource.ReadRequest{Id: &pbresource.ID{Type: artistType(gv), Tenancy: svcTenancy(), Name: name, Uid: uid}})
+	if err != nil {
+		return nil, status.Code(err)
+	}
+	return rsp.Resource, codes.OK
+}
+
+func (e *svcEnv) read(tid int, name, gv, uid string) *pbresource.Resource {
+	res, code := e.rawRead(name, gv, uid)
+	e.record(sop{tid: tid, kind: "r", name: name, gv: gv, uid: uid, code: code, res: res})
+	return res
+}
+
+func (e *svcEnv) del(tid int, name, gv, uid, vsn string) {
+	o := sop{tid: tid, kind: "d", name: name, gv: gv, uid: uid, presented: vsn}
+	if uid == "" && vsn == "" {
+		// whatever GroupVersion is stored: try both for the bracketing reads
+		if o.before, _ = e.rawRead(name, "v2", ""); o.before == nil {
+			o.before, _ = e.rawRead(name, "v1", "")
 		}
 	}
-	read := func(name string) *pbresource.Resource {
-		rsp, err := srv.Read(bg, &pbresource.ReadRequest{Id: &pbresource.ID{Type: typ, Tenancy: ten(), Name: name}})
-		if err != nil {
-			return nil
+	_, err := e.srv.Delete(bg, &pbresource.DeleteRequest{Id: &pbresource.ID{Type: artistType(gv), Tenancy: svcTenancy(), Name: name, Uid: uid}, Version: vsn})
+	o.code = status.Code(err)
+	if uid == "" && vsn == "" {
+		if o.after, _ = e.rawRead(name, "v2", ""); o.after == nil {
+			o.after, _ = e.rawRead(name, "v1", "")
 		}
-		return rsp.Resource
 	}
-	var wg sync.WaitGroup
-	start := make(chan struct{})
-	for t := 0; t < nThreads; t++ {
-		tr := r.Fork(uint64(t + 1))
-		tid := t
-		wg.Add(1)
-		go func() {
-			defer wg.Done()
-			<-start
-			seen := map[string]*pbresource.Resource{}
-			for i := 0; i < perThread; i++ {
-				name := hx.Pick(tr, names)
-				o := sop{tid: tid, name: name}
-				switch n := tr.Intn(100); {
-				case n < 30:
-					o.kind = "uw"
-					rsp, err := srv.Write(bg, &pbresource.WriteRequest{Resource: mkRes(name)})
-					o.code = status.Code(err)
-					if err == nil {
-						o.res = rsp.Resource
-						seen[name] = rsp.Resource
-					}
-				case n < 50:
-					o.kind = "cw"
-					res := mkRes(name)
-					if s := seen[name]; s != nil {
-						res.Version = s.Version
-						if tr.Chance(60) {
-							res.Id.Uid = s.Id.Uid
-						}
-					} else {
-						res.Version = "1"
-					}
-					o.presented, o.uid = res.Version, res.Id.Uid
-					rsp, err := srv.Write(bg, &pbresource.WriteRequest{Resource: res})
-					o.code = status.Code(err)
-					if err == nil {
-						o.res = rsp.Resource
-						seen[name] = rsp.Resource
-					}
-				case n < 65:
-					o.kind = "ud"
-					o.before = read(name)
-					_, err := srv.Delete(bg, &pbresource.DeleteRequest{Id: &pbresource.ID{Type: typ, Tenancy: ten(), Name: name}})
-					o.code = status.Code(err)
-					o.after = read(name)
-				case n < 78:
-					o.kind = "cd"
-					id := &pbresource.ID{Type: typ, Tenancy: ten(), Name: name}
-					v := "1"
-					if s := seen[name]; s != nil {
-						id.Uid, v = s.Id.Uid, s.Version
-					}
-					o.presented, o.uid = v, id.Uid
-					_, err := srv.Delete(bg, &pbresource.DeleteRequest{Id: id, Version: v})
-					o.code = status.Code(err)
-				default:
-					o.kind = "r"
-					o.res = read(name)
-					if o.res != nil {
-						seen[name] = o.res
-					}
-				}
-				mu.Lock()
-				ops = append(ops, o)
-				mu.Unlock()
-			}
-		}()
-	}
-	close(start)
-	if !waitOrStuck(&wg, 60*time.Second) {
-		run.Violate("deadlock:unclassified", "the goroutines of a service-level history did not return within 60 s", nil)
-		stop.Store(true)
-		return
-	}
-	// sentinel through the service, then wait for the observer to see it
-	srsp, err := srv.Write(bg, &pbresource.WriteRequest{Resource: mkRes("zz")})
+	e.record(o)
+}
+
+// finish waits for the observer to have seen everything, then judges the history.
+func (e *svcEnv) finish(label string) {
+	defer e.cancel()
+	run := e.run
+	srsp, err := e.srv.Write(bg, &pbresource.WriteRequest{Resource: e.mkRes("zz", "v2", "", "")})
 	if err != nil {
 		panic(err)
 	}
 	seenIt := false
 	for deadline := time.Now().Add(10 * time.Second); time.Now().Before(deadline) && !seenIt; {
-		obsMu.Lock()
-		seenIt = len(obs) > 0 && obs[len(obs)-1].res.Id.Name == "zz" && obs[len(obs)-1].res.Version == srsp.Resource.Version
-		obsMu.Unlock()
+		e.obsMu.Lock()
+		n := len(e.obs)
+		seenIt = n > 0 && e.obs[n-1].res.Id.Name == "zz" && e.obs[n-1].res.Version == srsp.Resource.Version
+		e.obsMu.Unlock()
 		if !seenIt {
 			time.Sleep(200 * time.Microsecond)
 		}
 	}
-	stop.Store(true)
-	owg.Wait()
+	e.stop.Store(true)
+	e.owg.Wait()
 	if !seenIt {
 		run.Tag("svc:abandoned-observer-incomplete") // overloaded machine: no complete commit order, nothing to judge
 		return
 	}
+	ops, obs := e.ops, e.obs
 
-	var lines []string
+	lines := []string{"# " + label}
 	for _, o := range ops {
 		lines = append(lines, o.line())
-		run.Tag("svc:" + o.kind + "-" + o.code.String())
+		cas := "noncas"
+		if o.presented != "" {
+			cas = "cas"
+		}
+		by := "byname"
+		if o.uid != "" {
+			by = "byuid"
+		}
+		run.Tag(fmt.Sprintf("svc:%s-%s-%s-%s", o.kind, by, cas, o.code))
 	}
-	for _, e := range obs {
-		lines = append(lines, fmt.Sprintf("svc-commit %c %s %s/%s", e.kind, e.res.Id.Name, e.res.Id.Uid, e.res.Version))
+	for _, ev := range obs {
+		lines = append(lines, fmt.Sprintf("svc-commit %c %s %s/%s/%s", ev.kind, ev.res.Id.Name, ev.res.Id.Type.GroupVersion, ev.res.Id.Uid, ev.res.Version))
 	}
 	viol := func(sig, desc string) {
 		if sigCount[sig] < 3 {
@@ -249,81 +262,123 @@ func serviceHistory(run *hx.Run, r *hx.RNG) {
 		sigCount[sig]++
 	}
 
-	// ---- monitors on the commit order
-	type ev struct {
-		del      bool
-		uid, vsn string
+	// ---- the commit order, per resource
+	type cev struct {
+		del          bool
+		uid, vsn, gv string
 	}
-	perKey := map[string][]ev{}
-	committed := map[string]bool{} // name|uid|version of every upsert
-	for _, e := range obs {
-		perKey[e.res.Id.Name] = append(perKey[e.res.Id.Name], ev{e.kind == 'x', e.res.Id.Uid, e.res.Version})
-		if e.kind == 'u' {
-			committed[e.res.Id.Name+"|"+e.res.Id.Uid+"|"+e.res.Version] = true
+	perKey := map[string][]cev{}
+	committed := map[string]int{} // name|uid|version of an upsert -> position in perKey[name]
+	for _, ev := range obs {
+		n := ev.res.Id.Name
+		if ev.kind == 'u' {
+			committed[n+"|"+ev.res.Id.Uid+"|"+ev.res.Version] = len(perKey[n])
 		}
+		perKey[n] = append(perKey[n], cev{ev.kind == 'x', ev.res.Id.Uid, ev.res.Version, ev.res.Id.Type.GroupVersion})
 	}
+	// live(i): the resource exists right before commit i, and with which uid
+	prevLive := func(name string, i int) (bool, cev) {
+		if i == 0 || perKey[name][i-1].del {
+			return false, cev{}
+		}
+		return true, perKey[name][i-1]
+	}
+	uidsOf := map[string]map[string]bool{} // name -> every uid a lifetime ever had
 	for name, evs := range perKey {
-		usedUids := map[string]bool{}
-		var prev *ev
-		for i := range evs {
-			e := evs[i]
+		uidsOf[name] = map[string]bool{}
+		for i, c := range evs {
+			live, p := prevLive(name, i)
 			switch {
-			case e.del:
-				if prev == nil || prev.del || prev.uid != e.uid || prev.vsn != e.vsn {
+			case c.del:
+				if !live || p.uid != c.uid || p.vsn != c.vsn {
 					viol("svc:delete-event-not-last-version", "a delete event for "+name+" does not carry the last committed version")
 				}
-			case prev != nil && !prev.del:
-				if prev.uid != e.uid {
-					viol("svc:uid-changed-within-lifetime", "two successive versions of "+name+" carry different uids")
+			case live:
+				if p.uid != c.uid {
+					viol("uid:changed-within-lifetime", "service layer: two successive versions of "+name+" carry different uids")
 				}
 			default: // a creation
-				if e.uid == "" {
+				if c.uid == "" {
 					viol("svc:created-without-uid", "a resource was created with an empty uid")
 				}
-				if usedUids[e.uid] {
+				if uidsOf[name][c.uid] {
 					viol("svc:uid-reused-across-lifetimes", "a re-created resource got the uid of an earlier lifetime")
 				}
-				usedUids[e.uid] = true
+				uidsOf[name][c.uid] = true
 			}
-			prev = &evs[i]
 		}
 	}
-	// every successful write is a commit; every commit comes from a successful write
+
 	nOK := 0
-	cas := map[string]int{}
+	casOK := map[string]int{}
 	for _, o := range ops {
-		if (o.kind == "uw" || o.kind == "cw") && o.code == codes.OK {
-			nOK++
-			if !committed[o.name+"|"+o.res.Id.Uid+"|"+o.res.Version] {
-				viol("svc:write-ok-not-committed", "Write returned a resource version that was never committed")
+		switch o.kind {
+		case "w":
+			if o.code != codes.OK {
+				continue
 			}
-		}
-		if o.kind == "cw" && o.code == codes.OK {
-			cas[o.name+"|"+o.presented]++
-			// the commit must sit right after the version it presented, in the same lifetime
-			evs := perKey[o.name]
-			for i, e := range evs {
-				if !e.del && e.uid == o.res.Id.Uid && e.vsn == o.res.Version {
-					if i == 0 || evs[i-1].del || evs[i-1].vsn != o.presented {
-						viol("svc:cas-write-not-on-presented-version", "a CAS write committed although the presented version was not the current one")
-					}
-					if o.uid != "" && o.uid != e.uid {
-						viol("svc:stale-uid-write-succeeded", "a write carrying the uid of another lifetime succeeded")
-					}
+			nOK++
+			i, ok := committed[o.name+"|"+o.res.Id.Uid+"|"+o.res.Version]
+			if !ok {
+				viol("svc:write-ok-not-committed", "Write returned a resource version that was never committed")
+				continue
+			}
+			live, p := prevLive(o.name, i)
+			// stale writers: a write that names the uid of one lifetime must never land on another lifetime
+			if o.uid != "" && live && p.uid != o.uid {
+				viol("uid:stale-writer-wrote", fmt.Sprintf(
+					"service layer: a write carrying uid %s (GroupVersion %s, presented version %q) overwrote the resource of the lifetime with uid %s",
+					o.uid, o.gv, o.presented, p.uid))
+			}
+			if o.uid != "" && o.res.Id.Uid != o.uid && uidsOf[o.name][o.uid] && live {
+				// (same shape seen from the response: the caller asked for one lifetime and was answered with another)
+				run.Tag("svc:write-answered-with-other-lifetime")
+			}
+			if o.presented != "" {
+				casOK[o.name+"|"+o.presented]++
+				if !live || p.vsn != o.presented {
+					viol("svc:cas-write-not-on-presented-version", "a CAS write committed although the presented version was not the current one")
 				}
 			}
+		case "r":
+			if o.res == nil {
+				continue
+			}
+			if _, ok := committed[o.name+"|"+o.res.Id.Uid+"|"+o.res.Version]; !ok {
+				viol("svc:read-never-written", "Read returned a resource version that was never committed")
+			}
+			if o.uid != "" && o.res.Id.Uid != o.uid {
+				viol("uid:stale-reader-saw", fmt.Sprintf("service layer: a read carrying uid %s (GroupVersion %s) returned the resource of the lifetime with uid %s", o.uid, o.gv, o.res.Id.Uid))
+			}
+		case "d":
+			if o.code == codes.OK && o.uid == "" && o.presented == "" && o.before != nil && o.after != nil &&
+				o.before.Id.Uid == o.after.Id.Uid && o.before.Version == o.after.Version {
+				viol("svc:delete-lost", "Delete by name returned OK although the same version of the resource was there before and after the call")
+			}
 		}
-		if o.kind == "r" && o.res != nil && !committed[o.name+"|"+o.res.Id.Uid+"|"+o.res.Version] {
-			viol("svc:read-never-written", "Read returned a resource version that was never committed")
-		}
-		if o.kind == "ud" && o.code == codes.OK && o.before != nil && o.after != nil &&
-			o.before.Id.Uid == o.after.Id.Uid && o.before.Version == o.after.Version {
-			viol("svc:delete-lost", "Delete by name returned OK although the same version of the resource was there before and after the call")
+	}
+	// stale deleters: every delete event must be explained by a successful delete that named that lifetime
+	// (or none: by name), with that version (or none)
+	for name, evs := range perKey {
+		for _, c := range evs {
+			if !c.del {
+				continue
+			}
+			explained := false
+			for _, o := range ops {
+				if o.kind == "d" && o.code == codes.OK && o.name == name && (o.uid == "" || o.uid == c.uid) && (o.presented == "" || o.presented == c.vsn) {
+					explained = true
+					break
+				}
+			}
+			if !explained {
+				viol("uid:stale-deleter-deleted", "service layer: "+name+" (uid "+c.uid+", version "+c.vsn+") was deleted although no successful delete named that lifetime and version")
+			}
 		}
 	}
 	nUp := 0
-	for _, e := range obs {
-		if e.kind == 'u' && e.res.Id.Name != "zz" {
+	for _, ev := range obs {
+		if ev.kind == 'u' && ev.res.Id.Name != "zz" {
 			nUp++
 		}
 	}
@@ -331,13 +386,13 @@ func serviceHistory(run *hx.Run, r *hx.RNG) {
 		viol("svc:commit-without-successful-write", fmt.Sprintf("%d upsert commits but %d successful writes", nUp, nOK))
 	}
 	// at most one commit per presented version: one successful CAS write, and then no delete of that version
-	for k, n := range cas {
+	for k, n := range casOK {
 		name, vsn, _ := strings.Cut(k, "|")
 		if n > 1 {
 			viol("svc:two-successes-same-version", "two CAS writes presenting the same version of "+name+" succeeded")
 		}
-		for _, e := range perKey[name] {
-			if e.del && e.vsn == vsn {
+		for _, c := range perKey[name] {
+			if c.del && c.vsn == vsn {
 				viol("svc:two-successes-same-version", "a CAS write and a delete both committed on the same version of "+name)
 			}
 		}
@@ -345,8 +400,116 @@ func serviceHistory(run *hx.Run, r *hx.RNG) {
 	run.Case(strings.Join(lines, "\n"), len(obs) > 2)
 }
 
+// serviceWitness is the deterministic shape "create, delete, re-create, then the holder of the first
+// lifetime's id comes back" — with the other GroupVersion and with the same one, as non-CAS write, CAS
+// write, read, delete. On a correct tree none of them touches or sees the second lifetime.
+func serviceWitness(run *hx.Run) {
+	for _, gvs := range [][2]string{{"v2", "v1"}, {"v1", "v2"}, {"v2", "v2"}} {
+		stored, other := gvs[0], gvs[1]
+		e := newSvcEnv(run)
+		first := e.write(0, "a", stored, "", "")
+		if first == nil {
+			panic("service witness: creation failed")
+		}
+		e.del(0, "a", stored, first.Id.Uid, first.Version)
+		second := e.write(0, "a", stored, "", "")
+		if second == nil {
+			panic("service witness: re-creation failed")
+		}
+		// the stale client (tid 1)
+		e.read(1, "a", other, first.Id.Uid)
+		e.write(1, "a", other, first.Id.Uid, "")             // non-CAS
+		e.write(1, "a", other, first.Id.Uid, first.Version)   // CAS with its old version
+		e.write(1, "a", other, first.Id.Uid, second.Version)  // CAS with a guessed current version
+		e.del(1, "a", other, first.Id.Uid, first.Version)
+		e.del(1, "a", other, first.Id.Uid, second.Version)
+		e.read(0, "a", stored, second.Id.Uid)
+		run.Tag("case:service-witness-stale-client-" + stored + "-vs-" + other)
+		e.finish("service witness: stale client of a deleted lifetime, stored " + stored + ", client speaks " + other)
+	}
+}
+
+func serviceHistory(run *hx.Run, r *hx.RNG) {
+	e := newSvcEnv(run)
+	names := []string{"a", "b"}[:1+r.Intn(2)]
+	nThreads := 2 + r.Intn(3)
+	perThread := 5 + r.Intn(6)
+	run.Tag(fmt.Sprintf("svc:threads=%d", nThreads))
+
+	var wg sync.WaitGroup
+	start := make(chan struct{})
+	for t := 0; t < nThreads; t++ {
+		tr := r.Fork(uint64(t + 1))
+		tid := t
+		wg.Add(1)
+		go func() {
+			defer wg.Done()
+			<-start
+			// every id (with uid and version) this client has ever been handed, per name: it may come back
+			// with any of them later, long after that lifetime is gone
+			held := map[string][]*pbresource.Resource{}
+			learn := func(res *pbresource.Resource) {
+				if res != nil {
+					held[res.Id.Name] = append(held[res.Id.Name], res)
+				}
+			}
+			pick := func(name string) *pbresource.Resource {
+				h := held[name]
+				if len(h) == 0 {
+					return nil
+				}
+				if tr.Chance(55) {
+					return h[len(h)-1] // the latest it knows
+				}
+				return hx.Pick(tr, h) // possibly a lifetime that no longer exists
+			}
+			for i := 0; i < perThread; i++ {
+				name := hx.Pick(tr, names)
+				gv := hx.Pick(tr, []string{"v1", "v2"})
+				known := pick(name)
+				if known != nil && tr.Chance(60) {
+					gv = known.Id.Type.GroupVersion // mostly speak the GroupVersion it was handed
+				}
+				uid, vsn := "", ""
+				if known != nil {
+					uid, vsn = known.Id.Uid, known.Version
+				}
+				switch n := tr.Intn(100); {
+				case n < 22: // user write: by name, non-CAS
+					learn(e.write(tid, name, gv, "", ""))
+				case n < 36: // controller-style non-CAS write: by uid
+					learn(e.write(tid, name, gv, uid, ""))
+				case n < 48: // CAS write by uid
+					learn(e.write(tid, name, gv, uid, vsn))
+				case n < 54: // CAS write by name
+					learn(e.write(tid, name, gv, "", vsn))
+				case n < 64: // delete by name
+					e.del(tid, name, gv, "", "")
+				case n < 74: // CAS delete of the lifetime it knows
+					e.del(tid, name, gv, uid, vsn)
+				case n < 80: // non-CAS delete of the lifetime it knows
+					e.del(tid, name, gv, uid, "")
+				case n < 90: // read by name
+					learn(e.read(tid, name, gv, ""))
+				default: // read by uid
+					learn(e.read(tid, name, gv, uid))
+				}
+			}
+		}()
+	}
+	close(start)
+	if !waitOrStuck(&wg, 60*time.Second) {
+		run.Violate("deadlock:unclassified", "the goroutines of a service-level history did not return within 60 s", nil)
+		e.stop.Store(true)
+		e.cancel()
+		return
+	}
+	e.finish("service history")
+}
+
 func servicePart(run *hx.Run) {
-	n := run.Scale(40, 300)
+	serviceWitness(run)
+	n := run.Scale(60, 300)
 	for i := 0; i < n; i++ {
 		serviceHistory(run, run.RNG.Fork(uint64(2_000_000+i)))
 	}
